@@ -78,6 +78,39 @@ def ob_maps(h):
     h.check("both_points_emitted", len(seg["data_points"]) == 2)
 
 
+def ob_series(h):
+    """_create_graph_set with the two graph builders replaced by recorders: which table column feeds which series, and which series are
+    classified as UTILITY profiles -- for every combination of graphs present and of the graph-affecting options."""
+    from types import SimpleNamespace
+    from OpenPinch.lib.enums import ProblemTableLabel as PT
+    present = {g: h.choice(f"has_{g.name}", [True, False]) for g in (GraphType.GCC, GraphType.TSP, GraphType.SUGCC, GraphType.GCC_HP, GraphType.CC)}
+    cfg = SimpleNamespace(DO_VERTICAL_GCC=h.choice("DO_VERTICAL_GCC", [False, True]), DO_ASSITED_HT=h.choice("DO_ASSITED_HT", [False, True]),
+                          DO_BALANCED_CC=h.choice("DO_BALANCED_CC", [True, False]))
+    t = SimpleNamespace(graphs={g.value: object() for g, on in present.items() if on}, config=cfg, name="Z/Direct Integration")
+    seen = []
+    h.stub(gd, "_make_gcc_graph", lambda **k: (seen.append(("gcc", k)), {"type": k["key"]})[1])
+    h.stub(gd, "_make_composite_graph", lambda **k: (seen.append(("cc", k)), {"type": k["key"]})[1])
+    out = gd._create_graph_set(t, "Z/Direct Integration")
+    h.check("graph_set_named_after_its_record", out["name"] == "Z/Direct Integration")
+    h.check("one_graph_per_table_present", sorted(g["type"] for g in out["graphs"]) == sorted(t.graphs))
+    utility_columns = {PT.H_NET_UT.value, PT.H_NET_HP_PRO.value}
+    for kind, k in seen:
+        h.check("graph_built_from_its_own_table", k["data"] is t.graphs[k["key"]])
+        if kind == "gcc":
+            h.check("one_utility_flag_per_series", len(k["value_field"]) == len(k["is_utility_profile"]))
+            h.check("utility_flag_goes_with_the_utility_column", all(bool(f) == (c in utility_columns) for c, f in zip(k["value_field"], k["is_utility_profile"])))
+            h.check("series_columns_distinct", len(set(k["value_field"])) == len(k["value_field"]))
+        else:
+            locs = k.get("stream_types")
+            if locs is not None:
+                h.check("one_stream_location_per_column", len(locs) == len(k["col_keys"]))
+                for c, loc in zip(k["col_keys"], locs):
+                    is_ut = c in (PT.H_HOT_UT.value, PT.H_COLD_UT.value)
+                    hot = c in (PT.H_NET_HOT.value, PT.H_HOT_UT.value, PT.H_HOT.value, PT.H_HOT_BAL.value)
+                    want = (StreamLoc.HotU if hot else StreamLoc.ColdU) if is_ut else (StreamLoc.HotS if hot else StreamLoc.ColdS)
+                    h.check("stream_location_goes_with_the_column", loc == want)
+
+
 def _ob_slices(nmax):
     def ob(h):
         n = h.choice("points", list(range(2, nmax + 1)))
@@ -159,6 +192,8 @@ def obligations():
     return shared + [
         Obligation("C13.points", ob_points, kind="proof", functions=[gd._create_curve], expect=("point_is_round_2dp",), doc="POINTS (path-complete for 1..3 pairs)"),
         Obligation("C13.classify", ob_classify, kind="proof", functions=[gd._classify_segment, gd._segment_streamloc, gd._streamloc_colour], doc="SIGN, colour map"),
+        Obligation("C13.series", ob_series, kind="proof", functions=[gd._create_graph_set], stubs=("_make_gcc_graph", "_make_composite_graph (recorders)"), max_paths=100000,
+                   expect=("utility_flag_goes_with_the_utility_column",), doc="call-site contract: column -> series -> process / utility classification, for every option combination"),
         Obligation("C13.maps.b", ob_maps, kind="bounded", bound="all stream-location forms x {CC, TSP}", functions=[gd._graph_cc, gd._segment_streamloc]),
         Obligation("C13.slices.b", _ob_slices(5), kind="bounded", bound="curves of 2..5 points, enthalpies symbolic", functions=[gd._iter_gcc_segment_slices, gd._segment_bounds],
                    max_paths=400000, expect=("slices_cover_the_whole_non_flat_extent", "every_step_has_the_slice_class")),
